@@ -268,10 +268,13 @@ def tailMemBaseNoImm (opcode : BitVec 32) (m : MemView) : Result :=
   if !checkMemBase m || m.hasIndex then invalidAddress else
   if m.hasOffset then invalidDisplacement else ok1 (opcode ||| addReg m.baseId 5)
 
-/-- `EmitOp_MemBaseIndex_Rn5_Rm16` (with the checks of fixes/C02-7.patch) -/
+/-- `EmitOp_MemBaseIndex_Rn5_Rm16`.  Two variants are transcribed; `Gen/A64Tables` says which one the current source has
+(tools/gen_a64.py `source_features`): the original tail checks only "has a base register" and the index id; the repaired
+tail (fixes/C02-7.patch) also checks the base (`check_mem_base`), refuses write-back modes and a W index register with
+LSL / SXTX (option<0> = 1, opcode bit 13). -/
 def tailMemBaseIndex (opcode : BitVec 32) (m : MemView) : Result :=
-  if !checkMemBase m || m.mode != 0 then invalidAddress else
-  if m.indexType != (if opcode.getLsbD 13 then rtGp64 else rtGp32) then invalidAddress else
+  if (if srcIndexTailChecksBase == 1 then (!checkMemBase m || m.mode != 0) else !m.hasBaseReg) then invalidAddress else
+  if srcIndexTailChecksWIndex == 1 && m.indexType == rtGp32 && opcode.getLsbD 13 then invalidAddress else
   if m.indexId > 30 && m.indexId != idZR then invalidPhysId else
   ok1 (opcode ||| addReg m.indexId 16 ||| addReg m.baseId 5)
 
